@@ -233,9 +233,11 @@ func (g *Gen) genC14(n int) error {
 			cfg.minDocs, cfg.maxDocs = 520, 600
 			cfg.maxFields = 1
 			cfg.vecOne, cfg.vecAll = true, true
-			g.st("vec.clustered")
 		}
 		b := g.randBatch(g.fresh("b"), cfg)
+		if countVecs(b, "vecA") >= 1000 || countVecs(b, "vecB") >= 1000 {
+			g.st("vec.clustered")
+		}
 		g.emitBatch(b)
 		s := g.fresh("s")
 		g.emit("build %s %s", s, b.Name)
@@ -587,4 +589,17 @@ func (g *Gen) bigFrozenCase(mode int) {
 	}
 	g.emit("close %s", o)
 	g.st("case.bigfrozen")
+}
+
+// countVecs: number of vectors the batch holds in the given vector field.
+func countVecs(b *BatchSpec, fn string) int {
+	n := 0
+	for _, d := range b.Docs {
+		for _, f := range d.Fields {
+			if f.Kind == "vec" && f.Name == fn && f.Dim > 0 {
+				n += len(f.Vec) / f.Dim
+			}
+		}
+	}
+	return n
 }
